@@ -18,7 +18,12 @@ from common import Channel
 import c14_emsg as E
 
 STREAM, FILE = "bbb", "bbb_v7"
-CLOCKS = ["2024-09-03T10:07:00Z", "2024-01-01T01:00:02Z", "2025-06-30T23:59:58Z", "2024-02-29T12:00:01.5Z"]
+CLOCKS = ["2024-09-03T10:07:00Z", "2024-01-01T01:00:02Z", "2025-06-30T23:59:58Z", "2024-02-29T12:00:01.5Z",
+          "2024-09-03T10:07:20Z",            # on a loop boundary of bbb (elapsed since Jan 1 = 532271 loops of 40 s)
+          "2024-12-31T23:59:59.999999Z",     # last microsecond of a (leap) year
+          "2023-03-01T00:00:00.25Z",         # Feb 28 -> Mar 1 of a non-leap year
+          "2038-01-19T03:14:08Z",            # 2^31 s after the epoch
+          "2100-03-01T00:00:00.499999Z"]
 _STATE = {}
 
 
@@ -103,7 +108,18 @@ def fetch_run(case) -> dict:
             r = c.get(f"/dash/{case['mode']}/{STREAM}/{FILE}/{n}.m4v?{q}")
             out["status"].append(r.status_code)
             out["segments"].append(E.read_segment(r.get_data()) if r.status_code == 200 else None)
+    _remember(case, out)
     return out
+
+
+def _signature(out):
+    return [(st, None if s is None else (s["tfdt"], s["emsg"])) for st, s in zip(out["status"], out["segments"])]
+
+
+def _remember(case, out):
+    key = ("first", json.dumps(case, sort_keys=True))
+    if key not in _STATE:
+        _STATE[key] = _signature(out)
 
 
 DEFAULT_SCHED = dict(start=0, interval=1000, count=0, duration=200, timescale=100, inband=True)
@@ -134,6 +150,8 @@ def oracle_case(case) -> list:
         return manifest_oracle(case)
     if case.get("kind") == "walk":
         return walk_oracle(case, fetch_walk(case))
+    if case.get("kind") == "defaults":
+        return defaults_oracle(case, fetch_defaults(case))
     if case.get("kind") == "reject":
         import appboot
         _, c = app()
@@ -222,7 +240,19 @@ WALK_TRACKS = {
     # skip stored segments (C02 proves only "within half a segment"), ledger D13m
     "c14w0": (600, [1200] * 5, 0),
     "c14w9": (30000, [50050] * 6, 0),
+    # writer options: no tfdt boxes (the server synthesises decode times), fragments numbered from 0 / 7,
+    # version-1 tfdt, media timescales 1 and 10^7
+    "c14wa": (240, [960, 480, 960, 960], 0),
+    "c14wb": (1024, [2048, 2048, 512, 2048], 0),
+    "c14wc": (1, [4, 4, 2, 4, 4], 0),
+    "c14wd": (10 ** 7, [40000000, 40000000, 8000000, 40000000], 0),
+    # regular track of a stream with stored *stream defaults* for the event options
+    "c14wz": (600, [1200] * 5, 0),
 }
+WALK_WRITER = {"c14wa": dict(with_tfdt=False), "c14wb": dict(start_number=0, tfdt_version=1),
+               "c14wd": dict(start_number=7)}
+STREAM_DEFAULTS = {"c14wz": {"eventTypes": ["ping"], "ping": {"interval": 150, "start": 40, "count": 0, "version": 1,
+                                                              "timescale": 100, "duration": 33}}}
 # (a non-zero first decode time is not used: ledger C02 D10-nonzero-first-decode-time)
 
 
@@ -237,9 +267,15 @@ def ensure_walk_streams():
     import mp4synth
     a, _ = app()
     for i, (name, (ts, durs, first)) in enumerate(sorted(WALK_TRACKS.items())):
-        v = mp4synth.make_track("video", ts, durs, samples_per_segment=4, seed=1400 + i, track_id=1,
-                                first_decode_time=first, tfdt_version=1 if first else None)
+        kw = dict(first_decode_time=first, tfdt_version=1 if first else None)
+        kw.update(WALK_WRITER.get(name, {}))
+        v = mp4synth.make_track("video", ts, durs, samples_per_segment=4, seed=1400 + i, track_id=1, **kw)
         mp4synth.register(a, name, f"C14 walk {name}", {f"{name}_v1": v}, timing_from=f"{name}_v1")
+        if name in STREAM_DEFAULTS:
+            with a.ctx() as models:
+                st = models.Stream.get(directory=name)
+                st.defaults = STREAM_DEFAULTS[name]
+                models.db.session.commit()
     _STATE["walk_ready"] = True
 
 
@@ -313,11 +349,12 @@ def walk_oracle(case, f) -> list:
     return E.oracle_run(ec, [s["emsg"] for s in f["segments"]])
 
 
-def gen_walk_case(rng, stream: str | None = None):
-    """`stream` given: a `$Time$` walk of that track (run() visits every irregular track each run)"""
+def gen_walk_case(rng, stream: str | None = None, addressing: str | None = None):
+    """`stream` given: a walk of that track (run() visits every irregular track by `$Time$` and every
+    regular one by `$Number$` in each run)"""
     ensure_walk_streams()
     name = stream or rng.choice(sorted(WALK_TRACKS) + ["bbb"])
-    addressing = "time" if stream else rng.choice(["time", "time", "number"])
+    addressing = addressing or ("time" if stream else rng.choice(["time", "time", "number"]))
     if addressing == "number" and not regular(name):
         name = rng.choice(["bbb", "c14w0", "c14w9"])       # H of $Number$ walks: equal stored durations
     rep_ts, durs, _first = WALK_TRACKS.get(name, (240, [960] * 10, 0))
@@ -370,6 +407,110 @@ def _walk_case(ch, case, lines, jobs):
     lines.append(E.driver_line(ec))
     jobs.append((case, "boxes per segment (manifest walk)", impl))
     ch.sample({"case": case, "listed": f["listed"][:3], "boxes": impl[:100]}, limit=2)
+
+
+# ------------------------------------------------------------------ options from stream defaults / omitted
+
+PING_DEFAULT = dict(start=0, interval=1000, count=0, duration=200, timescale=100, version=0, inband=True)
+
+
+def defaults_cases():
+    """fixed list: every event option left to the server default (bbb), given by the stream's stored
+    defaults (c14wz), and stored defaults partly overridden in the URL; vod and live"""
+    d = dict(PING_DEFAULT, **STREAM_DEFAULTS["c14wz"]["ping"])
+    out = []
+    for mode in ("vod", "live"):
+        out.append({"kind": "defaults", "stream": "bbb", "file": "bbb_v7", "rep_ts": 240, "mode": mode,
+                    "clock": CLOCKS[0], "event": "ping", "query": "events=ping", "sched": dict(PING_DEFAULT)})
+        out.append({"kind": "defaults", "stream": "c14wz", "file": "c14wz_v1", "rep_ts": 600, "mode": mode,
+                    "clock": CLOCKS[3], "event": "ping", "query": "", "sched": dict(d)})
+        out.append({"kind": "defaults", "stream": "c14wz", "file": "c14wz_v1", "rep_ts": 600, "mode": mode,
+                    "clock": CLOCKS[4], "event": "ping", "query": "ping__interval=70&ping__version=0",
+                    "sched": dict(d, interval=70, version=0)})
+    return out
+
+
+def fetch_defaults(case):
+    import appboot
+    _, c = app()
+    ensure_walk_streams()
+    seg = {"bbb": 960, "c14wz": 1200}[case["stream"]]
+    if case["mode"] == "vod":
+        numbers = [1, 2, 3, 4, 5]
+        extra = ""
+    else:
+        now, ast = _parse_iso(case["clock"]), _parse_iso(live_start(case["clock"]))
+        newest = int((now - ast).total_seconds() * case["rep_ts"]) // seg - 2
+        numbers = list(range(newest - 6, newest + 1))
+        extra = "start=" + live_start(case["clock"])
+    q = "&".join(x for x in (case["query"], extra) if x)
+    out = {"status": [], "segments": []}
+    with appboot.Clock(case["clock"]):
+        for n in numbers:
+            r = c.get(f"/dash/{case['mode']}/{case['stream']}/{case['file']}/{n}.m4v" + (f"?{q}" if q else ""))
+            out["status"].append(r.status_code)
+            out["segments"].append(E.read_segment(r.get_data()) if r.status_code == 200 else None)
+    _remember(case, out)
+    return out
+
+
+def defaults_oracle(case, f) -> list:
+    if any(st != 200 for st in f["status"]):
+        return [f"segment requests answered {f['status']}"]
+    ec = {"event": case["event"], "mode": case["mode"], "sched": case["sched"], "rep_timescale": case["rep_ts"],
+          "run": [[s["tfdt"], s["trun_duration"]] for s in f["segments"]]}
+    return E.oracle_run(ec, [s["emsg"] for s in f["segments"]])
+
+
+def _defaults_case(ch, case, lines, jobs):
+    f = fetch_defaults(case)
+    ch.count("options from " + ("server defaults" if case["stream"] == "bbb" else
+                                ("stream defaults" if not case["query"] else "stream defaults + URL override")))
+    fails = defaults_oracle(case, f)
+    if fails:
+        ch.oracle_failures.append({"channel": "events_e2e", "case": case, "failures": fails[:4]})
+        return
+    segs = f["segments"]
+    if sum(len(s["emsg"]) for s in segs):
+        ch.nontrivial.add(json.dumps(case, sort_keys=True))
+    ec = {"event": case["event"], "mode": case["mode"], "sched": case["sched"], "rep_timescale": case["rep_ts"],
+          "run": [[s["tfdt"], s["trun_duration"]] for s in segs]}
+
+    def o(v):
+        return "-" if v is None else str(v)
+    impl = ";".join("+".join(f"{b['id']},{o(b['delta'])},{o(b['pt'])}" for b in s["emsg"]) or "-" for s in segs)
+    lines.append(E.driver_line(ec))
+    jobs.append((case, "boxes per segment (options from defaults)", impl))
+
+
+# ------------------------------------------------------------------ fixed grid (not left to the seed)
+
+def grid_cases(rng):
+    """deterministic classes of the quick tier: one live run per clock (sub-second phases, loop boundary,
+    year end, 2038, 2100), validator limits (count 10000, program_id 65535), falsy-but-legal values"""
+    out = []
+    for i, clock in enumerate(CLOCKS):
+        now, ast = _parse_iso(clock), _parse_iso(live_start(clock))
+        newest = int((now - ast).total_seconds() * 240) // 960 - 1
+        m = [2, 3, 12][i % 3]
+        numbers = list(range(max(1, newest - m + 1), newest + 1))
+        a0 = (numbers[0] - 1) * 960 * 100 // 240
+        event = "ping" if i % 2 == 0 else "scte35"
+        s = dict(start=max(0, a0 - 3 * 150 + (i % 2)), interval=150, count=0, duration=200, timescale=100,
+                 version=1 if event == "scte35" else (i // 2) % 2, inband=True)
+        if event == "scte35":
+            s["program_id"] = 65535
+        out.append({"kind": "segments", "mode": "live", "clock": clock, "event": event, "sched": s,
+                    "numbers": numbers})
+    base = {"kind": "segments", "mode": "vod", "clock": CLOCKS[0], "numbers": [1, 2, 3]}
+    # count exactly at the HTTP limit; falsy legal values (start 0, duration 0, count 0, version 0, program_id 0)
+    out.append(dict(base, event="ping", sched=dict(start=0, interval=7, count=10000, duration=0, timescale=100,
+                                                   version=0, inband=True)))
+    out.append(dict(base, event="scte35", sched=dict(start=0, interval=400, count=0, duration=0, timescale=100,
+                                                     version=1, inband=True, program_id=0)))
+    out.append({"kind": "manifest", "mode": "vod", "clock": CLOCKS[0], "event": "ping",
+                "sched": dict(start=0, interval=1, count=10000, duration=0, timescale=100, version=0, inband=False)})
+    return out
 
 
 # ------------------------------------------------------------------ generator
@@ -483,10 +624,13 @@ def run(ctx) -> Channel:
     rng = ctx.rng("e2e")
     cases = [json.loads(p.read_text()) for p in sorted((common.CORPUS / "C14").glob("e2e-*.json"))] \
         if (common.CORPUS / "C14").is_dir() else []
+    ensure_walk_streams()
+    cases += grid_cases(ctx.rng("e2e-grid")) + defaults_cases()
     cases += [gen_case(rng, ctx.thorough) for _ in range(ctx.scale(45, 700))]
     cases += [gen_manifest_case(rng) for _ in range(ctx.scale(25, 300))]
     wrng = ctx.rng("e2e-walk")
     cases += [gen_walk_case(wrng, stream=n) for n in sorted(WALK_TRACKS) if not regular(n)]
+    cases += [gen_walk_case(wrng, stream=n, addressing="number") for n in ("bbb", "c14w0", "c14w9", "c14wz")]
     cases += [gen_walk_case(wrng) for _ in range(ctx.scale(10, 160))]
     _reject_cases(ch)
     lines, jobs = [], []
@@ -498,10 +642,27 @@ def run(ctx) -> Channel:
                 _manifest_case(ch, case, lines, jobs)
             elif case["kind"] == "walk":
                 _walk_case(ch, case, lines, jobs)
+            elif case["kind"] == "defaults":
+                _defaults_case(ch, case, lines, jobs)
             else:
                 _segment_case(ch, case, lines, jobs)
         except Exception as e:
             ch.errors.append(f"{type(e).__name__}: {e} on {json.dumps(case)[:200]}")
+    # history: re-issue earlier requests after everything else (other streams, modes, option vectors,
+    # clocks) has been served by the same process; the answers must be the ones given the first time
+    for case in [c for c in cases if c["kind"] in ("segments", "defaults")][:ctx.scale(12, 60)]:
+        ch.evaluations += 1
+        ch.count("re-issued after other requests")
+        try:
+            first = _STATE.get(("first", json.dumps(case, sort_keys=True)))
+            again = fetch_defaults(case) if case["kind"] == "defaults" else fetch_run(case)
+            sig = _signature(again)
+            if first is not None and sig != first:
+                ch.oracle_failures.append({"channel": "events_e2e", "case": case, "failures": [
+                    "the same request answered differently after other requests had been served "
+                    f"(first {str(first)[:120]}, then {str(sig)[:120]})"]})
+        except Exception as e:
+            ch.errors.append(f"re-issue: {type(e).__name__}: {e}")
     if lines:
         try:
             out = E.run_driver(lines)
